@@ -20,8 +20,21 @@ type exchange struct {
 	kind   string
 }
 
-func historyTranscoder(backend http.Handler) *vanguard.Transcoder {
-	opts := []vanguard.ServiceOption{vanguard.WithTargetProtocols(vanguard.ProtocolGRPC), vanguard.WithTargetCodecs("proto"), vanguard.WithMaxMessageBufferBytes(2048)}
+// the backend side of a history: one target protocol and codec for the whole transcoder
+type histConf struct {
+	target vanguard.Protocol
+	codec  string
+}
+
+func genHistConf(r *rng) histConf {
+	return histConf{
+		target: pick(r, []vanguard.Protocol{vanguard.ProtocolGRPC, vanguard.ProtocolGRPC, vanguard.ProtocolGRPCWeb, vanguard.ProtocolConnect}),
+		codec:  pick(r, []string{"proto", "proto", "json"}),
+	}
+}
+
+func historyTranscoder(backend http.Handler, hc histConf) *vanguard.Transcoder {
+	opts := []vanguard.ServiceOption{vanguard.WithTargetProtocols(hc.target), vanguard.WithTargetCodecs(hc.codec), vanguard.WithMaxMessageBufferBytes(2048)}
 	tc, err := vanguard.NewTranscoder([]*vanguard.Service{vanguard.NewService(libraryService, backend, opts...), vanguard.NewService(contentService, backend, opts...)})
 	if err != nil {
 		panic(err)
@@ -30,9 +43,24 @@ func historyTranscoder(backend http.Handler) *vanguard.Transcoder {
 }
 
 // genExchange: valid and hostile exchanges; probe=true gives a valid one that holds several pooled buffers at once
-func genExchange(r *rng, probe bool) exchange {
+func genExchange(r *rng, hc histConf, probe bool) exchange {
 	form := pick(r, []int{formConnectPost, formGRPCWeb, formGRPC, formConnectStream, formREST})
-	codec := "json" // differs from the backend's proto: always transformed
+	codec := pick(r, []string{"json", "proto"}) // same as the backend's: re-framed only; different: transformed
+	if probe {
+		codec = "json"
+		if hc.codec == "json" {
+			codec = "proto"
+		}
+	}
+	fault := -1
+	if !probe {
+		fault = r.intn(14)
+		if fault >= 11 && r.chance(3, 4) {
+			// a malformed end-of-stream frame matters most where the response is only re-framed
+			codec = hc.codec
+			form = pick(r, []int{formGRPCWeb, formGRPC, formConnectStream, formConnectStream})
+		}
+	}
 	comp := pick(r, []string{"", "gzip", "gzip"})
 	streaming := form == formConnectStream
 	var spec clientSpec
@@ -47,12 +75,12 @@ func genExchange(r *rng, probe bool) exchange {
 		}
 	}
 	req := spec.build()
-	resp := backendResp{Target: vanguard.ProtocolGRPC, Streaming: streaming, Codec: "proto", Comp: pick(r, []string{"", "gzip"}), Split: r.intn(3)}
+	resp := backendResp{Target: hc.target, Streaming: streaming, Codec: hc.codec, Comp: pick(r, []string{"", "gzip"}), Split: r.intn(3)}
 	var respMsg proto.Message = &testv1.Book{Name: name, Title: strings.Repeat("t", r.intn(40))}
 	if streaming {
 		respMsg = &testv1.SubscribeResponse{FilenameChanged: "f"}
 	}
-	payload, _ := proto.Marshal(respMsg)
+	payload := marshal(hc.codec, respMsg)
 	resp.Msgs, resp.Flags = [][]byte{payload}, []bool{true}
 	kind := "valid"
 	if !probe {
@@ -60,7 +88,12 @@ func genExchange(r *rng, probe bool) exchange {
 		for _, ch := range req.Chunks {
 			body = append(body, ch...)
 		}
-		switch r.intn(12) {
+		switch fault {
+		case 11, 12, 13:
+			resp.BadEnd = 1 + r.intn(2)
+			if resp.badEndEffective() {
+				kind = "backend-badend"
+			}
 		case 0:
 			req.Headers = append(req.Headers, [2]string{"Content-Type", "text/plain"})
 			kind = "validation"
@@ -115,7 +148,12 @@ func genExchange(r *rng, probe bool) exchange {
 			}
 		}
 	}
-	script := append([]action{{Op: "readall", N: 256}}, resp.script(r, newEndTables())...)
+	script := []action{{Op: "readall", N: 256}}
+	if r.chance(2, 3) {
+		// like connect-go and grpc-go handlers, which close the request body themselves
+		script = append(script, action{Op: "closebody"})
+	}
+	script = append(script, resp.script(r, newEndTables())...)
 	if kind == "backend-panic" {
 		script = []action{{Op: "read", N: 16}, {Op: "panic"}}
 	}
@@ -161,30 +199,63 @@ func init() {
 	// C14 (sequential part): the pool trace of the whole history never shows a buffer released twice or handed
 	// out while still in use.
 	suites["histories"] = func(c *ctx) {
-		r := c.r
 		for i := 0; i < c.n/12+1; i++ {
-			sbUsed, sbFresh := &switchBackend{}, &switchBackend{}
-			used := historyTranscoder(sbUsed)
-			pw, stop := watchPool()
-			n := 1 + r.intn(12)
-			kinds := map[string]bool{}
-			for k := 0; k < n; k++ {
-				ex := genExchange(r, false)
-				kinds[ex.kind] = true
-				runExchange(used, sbUsed, ex)
-			}
-			probe := genExchange(r, true)
-			onUsed := runExchange(used, sbUsed, probe)
-			trace := poolTraceV(pw)
-			stop()
-			fresh := historyTranscoder(sbFresh)
-			onFresh := runExchange(fresh, sbFresh, probe)
-			tags := []string{fmt.Sprintf("histories.len:%d", n)}
-			for k := range kinds {
+			seed := int64(c.r.next() >> 2)
+			h := runHistory(seed)
+			tags := []string{fmt.Sprintf("histories.len:%d", h.n), "histories.target:" + h.hc.target.String() + "/" + h.hc.codec}
+			for k := range h.kinds {
 				tags = append(tags, "histories:"+k)
 			}
-			c.emit(Case{Suite: "history.probe", In: L{int64(n)}, Out: L{onUsed, onFresh}, Tags: tags})
-			c.emit(Case{Suite: "pool.trace", In: L{B("history")}, Out: trace, Tags: []string{"pool.trace:history"}})
+			c.emit(Case{Suite: "history.probe", In: L{seed}, Out: L{h.onUsed, h.onFresh}, Tags: tags, Desc: h.desc})
+			c.emit(Case{Suite: "pool.trace", In: L{B("history"), seed}, Out: h.trace, Tags: []string{"pool.trace:history"}, Desc: h.desc})
 		}
 	}
+	replayers["history.probe"] = func(in any) any {
+		h := runHistory(rInt(rList(in)[0]))
+		return L{h.onUsed, h.onFresh}
+	}
+	replayers["pool.trace"] = func(in any) any {
+		l := rList(in)
+		if rStr(l[0]) == "history" {
+			return runHistory(rInt(l[1])).trace
+		}
+		vanguard.VerifPoolPoison.Store(true)
+		defer vanguard.VerifPoolPoison.Store(false)
+		return runConcurrentBatch(rInt(l[1])).trace
+	}
+}
+
+type historyRun struct {
+	n               int
+	hc              histConf
+	kinds           map[string]bool
+	onUsed, onFresh L
+	trace           L
+	desc            string
+}
+
+// runHistory: a history of exchanges on one transcoder, then a probe on it and on a fresh one. Everything
+// is derived from the seed.
+func runHistory(seed int64) historyRun {
+	r := &rng{s: uint64(seed)}
+	sbUsed, sbFresh := &switchBackend{}, &switchBackend{}
+	hc := genHistConf(r)
+	used := historyTranscoder(sbUsed, hc)
+	pw, stop := watchPool()
+	h := historyRun{n: 1 + r.intn(12), hc: hc, kinds: map[string]bool{}}
+	var order []string
+	for k := 0; k < h.n; k++ {
+		ex := genExchange(r, hc, false)
+		h.kinds[ex.kind] = true
+		order = append(order, fmt.Sprintf("%s(%s)", ex.kind, formNames[ex.form]))
+		runExchange(used, sbUsed, ex)
+	}
+	probe := genExchange(r, hc, true)
+	h.onUsed = runExchange(used, sbUsed, probe)
+	h.trace = poolTraceV(pw)
+	stop()
+	fresh := historyTranscoder(sbFresh, hc)
+	h.onFresh = runExchange(fresh, sbFresh, probe)
+	h.desc = fmt.Sprintf("backend %s/%s; history %s; probe %s", hc.target, hc.codec, strings.Join(order, ", "), formNames[probe.form])
+	return h
 }
